@@ -1,0 +1,132 @@
+//go:build verif
+
+package caco3
+
+// Export shim for the verification harness in /verif (build tag verif).
+// Nothing here is compiled into normal builds.
+
+import (
+	"path/filepath"
+	"sort"
+)
+
+// VerifMakeRelPath is makeRelPath.
+func VerifMakeRelPath(p, f string) string { return makeRelPath(p, f) }
+
+// VerifMakePath is makePath.
+func VerifMakePath(p, f string) string { return makePath(p, f) }
+
+// VerifDirFilePath is dirFilePath.
+func VerifDirFilePath(dir string, ps ...string) string {
+	return dirFilePath(dir, ps...)
+}
+
+func verifEnv(root string) *env {
+	return &env{
+		rootDir: root,
+		workDir: root,
+		srcDir:  filepath.Join(root, "src"),
+		outDir:  filepath.Join(root, "out"),
+	}
+}
+
+// VerifSrc is env.src for a workspace rooted at root.
+func VerifSrc(root string, ps ...string) string { return verifEnv(root).src(ps...) }
+
+// VerifOut is env.out for a workspace rooted at root.
+func VerifOut(root string, ps ...string) string { return verifEnv(root).out(ps...) }
+
+// VerifListAllFiles is listAllFiles.
+func VerifListAllFiles(dir string) ([]string, error) { return listAllFiles(dir) }
+
+// VerifFileSet is what newFileSet and its meta compute for a file_set rule
+// declared in package p of the workspace rooted at root.
+type VerifFileSet struct {
+	Name     string
+	Files    []string
+	Includes []string
+	Out      string
+	Deps     []string
+	Outs     []string
+}
+
+// VerifNewFileSet runs newFileSet and meta.
+func VerifNewFileSet(root, p string, r *FileSet) (*VerifFileSet, error) {
+	e := verifEnv(root)
+	fs, err := newFileSet(e, p, r)
+	if err != nil {
+		return nil, err
+	}
+	m, err := fs.meta(e)
+	if err != nil {
+		return nil, err
+	}
+	return &VerifFileSet{
+		Name:     fs.name,
+		Files:    append([]string{}, fs.files...),
+		Includes: append([]string{}, fs.includes...),
+		Out:      fs.out,
+		Deps:     append([]string{}, m.deps...),
+		Outs:     append([]string{}, m.outs...),
+	}, nil
+}
+
+// VerifBundle is what newBundle computes.
+func VerifNewBundle(p string, r *Bundle) (name string, deps []string) {
+	b := newBundle(nil, p, r)
+	return b.name, append([]string{}, b.deps...)
+}
+
+// VerifSubBuildDirs is what newSubBuilds computes.
+func VerifSubBuildDirs(p string, r *SubBuilds) []string {
+	return append([]string{}, newSubBuilds(nil, p, r).Dirs()...)
+}
+
+// VerifNode is a loaded build node.
+type VerifNode struct {
+	Name     string
+	Type     string
+	RuleType string
+	Deps     []string
+}
+
+// VerifLoad is the loader entry (loadNodes) without a builder: it reads the
+// workspace file and the build files of the workspace rooted at root and
+// loads the given targets.  It returns the nodes of the targets, every
+// loaded node sorted by name, and the loader's error messages.
+func VerifLoad(root string, targets []string) (
+	tops []string, loaded []*VerifNode, errs []string,
+) {
+	e := verifEnv(root)
+	ws, es := readWorkspace(e.root(workspaceFile))
+	if es != nil {
+		for _, err := range es {
+			errs = append(errs, err.Err.Error())
+		}
+		return nil, nil, errs
+	}
+	e.workspace = ws
+
+	nodes, m, es := loadNodes(e, targets)
+	if es != nil {
+		for _, err := range es {
+			errs = append(errs, err.Err.Error())
+		}
+		return nil, nil, errs
+	}
+	for _, n := range nodes {
+		tops = append(tops, n.name)
+	}
+	for _, n := range m {
+		loaded = append(loaded, &VerifNode{
+			Name:     n.name,
+			Type:     n.typ,
+			RuleType: n.ruleType,
+			Deps:     append([]string{}, n.deps...),
+		})
+	}
+	sort.Slice(loaded, func(i, j int) bool {
+		return loaded[i].Name < loaded[j].Name
+	})
+	return tops, loaded, nil
+}
